@@ -15,7 +15,7 @@ INFO = {
     ],
     "bounds": {
         "quick": {"jobs": "<=3 (one, chain2, indep2, chain3)", "death_point": "after 0..12 delivered events of the first run (one shard each; the events themselves are chosen symbolically)", "schedule": "3 symbolic choice points in each run (2 for indep2/chain3), then FIFO", "death": "SIGKILL-like (loop, helper threads and locks of the scheduler vanish; job processes live on)"},
-        "thorough": {"schedule": "4 choice points in each run", "jobs": "adds fork3/join3 and a file token"},
+        "thorough": {"schedule": "4 choice points in each run (3 for the three-job shapes and indep2)", "jobs": "adds fork3/join3 and a file token"},
     },
     "stubs": schedlib.STUBS + ["a process handle obtained from a pid file by another process has no exit status (like psutil for a non-child): the scheduler then relies on the markers"],
     "symbolic_data": True,
@@ -134,7 +134,10 @@ def conditions(tier):
         ncut = {"one": 6, "chain2": 10, "indep2": 10}.get(sh, 12)
         for cut in range(ncut + 1):
             # the death point (number of delivered events) is enumerated by the shard
-            k = K if (tier == "thorough" or sh in ("one", "chain2")) else 2
+            if tier == "quick":
+                k = K if sh in ("one", "chain2") else 2
+            else:
+                k = K if sh in ("one", "chain2") else 3
             conds.append({"name": f"restart/{sh}/cut{cut}", "func": "restart", "shard": {"shape": sh, "K": k, "cut": cut}, "timeout": tmo})
     if tier == "thorough":
         conds.append({"name": "restart-token/indep2", "func": "restart", "shard": {"shape": "indep2", "K": K, "token": [1, 1], "total": 1}, "timeout": tmo})
